@@ -1,12 +1,13 @@
 import RichModel.Model.ColorParse
 /-!
-Helper lemmas about the ASCII string functions (`split`, `strip`, `lower`, `" ".join`) and about
-`Color.parse` (the stored name is the normalised input; key words are not colours).
+Helper lemmas about the string functions over arbitrary lawful character tables (`split`, `strip`,
+`lower`, `" ".join`), their agreement with the ASCII rules on ASCII text, and about `Color.parse`
+(the stored name is the normalised input; key words are not colours; `StrTables.ascii` is lawful).
 -/
 namespace RichModel
 namespace AsciiStr
 
-/-! ### `lower` -/
+/-! ### ASCII `lower` -/
 
 /-- Reasoning about `'A'..'Z'` by checking the 26 characters. -/
 theorem upper_cases (P : Char → Prop) (h : ∀ n, n < 91 → 65 ≤ n → P (Char.ofNat n)) (c : Char)
@@ -24,40 +25,105 @@ theorem lowerChar_idem (c : Char) : lowerChar (lowerChar c) = lowerChar c := by
   · exact upper_cases (fun c => lowerChar (lowerChar c) = lowerChar c) (by decide) c hc
   · simp [lowerChar, hc]
 
-theorem lower_idem (s : List Char) : lower (lower s) = lower s := by
-  simp [lower, List.map_map, Function.comp_def, lowerChar_idem]
+/-- Lower-casing an ASCII character gives an ASCII character. -/
+theorem lowerChar_lt (c : Char) (h : c.toNat < 128) : (lowerChar c).toNat < 128 := by
+  by_cases hc : 65 ≤ c.toNat ∧ c.toNat ≤ 90
+  · exact upper_cases (fun c => (lowerChar c).toNat < 128) (by decide) c hc
+  · simpa [lowerChar, hc] using h
 
-theorem lower_noSpace {s : List Char} (h : ∀ c ∈ s, isSpace c = false) : ∀ c ∈ lower s, isSpace c = false := by
+theorem mem_allAscii {s : List Char} : allAscii s = true ↔ ∀ c ∈ s, c.toNat < 128 := by
+  simp [allAscii]
+
+end AsciiStr
+
+open AsciiStr
+
+/-- The ASCII rules are lawful tables. -/
+instance : StrTables.Lawful StrTables.ascii where
+  space_ascii := fun _ _ => rfl
+  lower_ascii := fun _ _ => rfl
+  decimal_ascii := fun _ _ => rfl
+  lower_idem := fun c => by simp [StrTables.ascii, lowerChar_idem]
+  lower_noSpace := fun c h d hd => by
+    simp only [StrTables.ascii, List.mem_singleton] at hd h ⊢
+    subst hd
+    rw [isSpace_lowerChar]; exact h
+  digits_floor := Or.inr (by decide)
+
+namespace StrTables
+variable (T : StrTables)
+
+/-! ### `lower` -/
+
+theorem lower_idem [hT : T.Lawful] (s : List Char) : T.lower (T.lower s) = T.lower s := by
+  induction s with
+  | nil => rfl
+  | cons c r ih =>
+    simp only [lower, List.flatMap_cons, List.flatMap_append] at ih ⊢
+    rw [ih, hT.lower_idem c]
+
+theorem lower_noSpace [hT : T.Lawful] {s : List Char} (h : ∀ c ∈ s, T.isSpace c = false) :
+    ∀ c ∈ T.lower s, T.isSpace c = false := by
   intro c hc
-  simp only [lower, List.mem_map] at hc
-  obtain ⟨d, hd, rfl⟩ := hc
-  rw [isSpace_lowerChar]; exact h d hd
+  simp only [lower, List.mem_flatMap] at hc
+  obtain ⟨d, hd, hcd⟩ := hc
+  exact hT.lower_noSpace d (h d hd) c hcd
+
+/-- On ASCII text the tables are the ASCII rules. -/
+theorem lower_ascii [hT : T.Lawful] {s : List Char} (h : allAscii s = true) : T.lower s = AsciiStr.lower s := by
+  induction s with
+  | nil => rfl
+  | cons c r ih =>
+    simp only [allAscii, List.all_cons, Bool.and_eq_true, decide_eq_true_eq] at h
+    have ih' := ih (by simpa [allAscii] using h.2)
+    simp only [lower, List.flatMap_cons, AsciiStr.lower, List.map_cons] at ih' ⊢
+    rw [hT.lower_ascii c h.1, ih']
+    rfl
+
+theorem isSpace_ascii [hT : T.Lawful] {s : List Char} (h : allAscii s = true) :
+    ∀ c ∈ s, T.isSpace c = AsciiStr.isSpace c :=
+  fun c hc => hT.space_ascii c (mem_allAscii.mp h c hc)
+
+theorem isSpace_blank [hT : T.Lawful] : T.isSpace ' ' = true := by
+  rw [hT.space_ascii ' ' (by decide)]; decide
+
+theorem mem_noSpace {s : List Char} : T.noSpace s = true ↔ ∀ c ∈ s, T.isSpace c = false := by
+  simp [noSpace]
+
+/-- An ASCII word without ASCII white space has no white space at all, and is its own `lower()` if it
+is its own ASCII `lower()`. -/
+theorem ascii_word [hT : T.Lawful] {w : List Char} (ha : allAscii w = true)
+    (hs : w.all (fun c => !AsciiStr.isSpace c) = true) :
+    (∀ c ∈ w, T.isSpace c = false) ∧ (AsciiStr.lower w = w → T.lower w = w) := by
+  refine ⟨fun c hc => ?_, fun hl => by rw [T.lower_ascii ha, hl]⟩
+  rw [T.isSpace_ascii ha c hc]
+  simpa using List.all_eq_true.mp hs c hc
 
 /-! ### `strip` on a string without white space -/
 
-theorem dropWhile_noSpace {s : List Char} (h : ∀ c ∈ s, isSpace c = false) : s.dropWhile isSpace = s := by
+theorem dropWhile_noSpace {s : List Char} (h : ∀ c ∈ s, T.isSpace c = false) : s.dropWhile T.isSpace = s := by
   cases s with
   | nil => rfl
   | cons a r => simp [List.dropWhile, h a (by simp)]
 
-theorem strip_noSpace {s : List Char} (h : ∀ c ∈ s, isSpace c = false) : strip s = s := by
+theorem strip_noSpace {s : List Char} (h : ∀ c ∈ s, T.isSpace c = false) : T.strip s = s := by
   unfold strip lstrip rstrip
-  rw [dropWhile_noSpace h, dropWhile_noSpace (s := s.reverse) (by simpa using h), List.reverse_reverse]
+  rw [T.dropWhile_noSpace h, T.dropWhile_noSpace (s := s.reverse) (by simpa using h), List.reverse_reverse]
 
 /-! ### `split` -/
 
-theorem splitAux_spaces (p : List Char) (hp : ∀ c ∈ p, isSpace c = true) (cur : List Char) :
-    splitAux p cur = if cur.isEmpty then [] else [cur] := by
+theorem splitAux_spaces (p : List Char) (hp : ∀ c ∈ p, T.isSpace c = true) (cur : List Char) :
+    T.splitAux p cur = if cur.isEmpty then [] else [cur] := by
   induction p generalizing cur with
   | nil => rfl
   | cons c r ih =>
     have hc := hp c (by simp)
-    have hr : ∀ d ∈ r, isSpace d = true := fun d hd => hp d (by simp [hd])
+    have hr : ∀ d ∈ r, T.isSpace d = true := fun d hd => hp d (by simp [hd])
     simp only [splitAux, hc, if_true]
     split <;> simp [ih hr]
 
-theorem splitAux_append_space (a : List Char) (c : Char) (hc : isSpace c = true) (b cur : List Char) :
-    splitAux (a ++ c :: b) cur = splitAux a cur ++ splitAux b [] := by
+theorem splitAux_append_space (a : List Char) (c : Char) (hc : T.isSpace c = true) (b cur : List Char) :
+    T.splitAux (a ++ c :: b) cur = T.splitAux a cur ++ T.splitAux b [] := by
   induction a generalizing cur with
   | nil =>
     simp only [List.nil_append, splitAux, hc, if_true]
@@ -68,20 +134,20 @@ theorem splitAux_append_space (a : List Char) (c : Char) (hc : isSpace c = true)
     · split <;> simp [ih]
     · exact ih _
 
-theorem splitAux_word (w : List Char) (hw : ∀ c ∈ w, isSpace c = false) (post : List Char)
-    (hp : ∀ c ∈ post, isSpace c = true) (cur : List Char) :
-    splitAux (w ++ post) cur = if (cur ++ w).isEmpty then [] else [cur ++ w] := by
+theorem splitAux_word (w : List Char) (hw : ∀ c ∈ w, T.isSpace c = false) (post : List Char)
+    (hp : ∀ c ∈ post, T.isSpace c = true) (cur : List Char) :
+    T.splitAux (w ++ post) cur = if (cur ++ w).isEmpty then [] else [cur ++ w] := by
   induction w generalizing cur with
-  | nil => simpa using splitAux_spaces post hp cur
+  | nil => simpa using T.splitAux_spaces post hp cur
   | cons x r ih =>
     have hx := hw x (by simp)
-    have hr : ∀ d ∈ r, isSpace d = false := fun d hd => hw d (by simp [hd])
+    have hr : ∀ d ∈ r, T.isSpace d = false := fun d hd => hw d (by simp [hd])
     simp only [List.cons_append, splitAux, hx, Bool.false_eq_true, if_false]
     rw [ih hr]
     simp
 
-theorem split_word {w : List Char} (hne : w ≠ []) (hw : ∀ c ∈ w, isSpace c = false) : split w = [w] := by
-  have := splitAux_word w hw [] (by simp) []
+theorem split_word {w : List Char} (hne : w ≠ []) (hw : ∀ c ∈ w, T.isSpace c = false) : T.split w = [w] := by
+  have := T.splitAux_word w hw [] (by simp) []
   simp only [List.append_nil, List.nil_append] at this
   unfold split
   rw [this]
@@ -89,48 +155,57 @@ theorem split_word {w : List Char} (hne : w ≠ []) (hw : ∀ c ∈ w, isSpace c
   | nil => exact absurd rfl hne
   | cons a r => simp
 
-theorem split_append_space (a b : List Char) : split (a ++ ' ' :: b) = split a ++ split b :=
-  splitAux_append_space a ' ' (by decide) b []
+/-- A literal lower-case ASCII word (checked by `decide`) is its own `lower()`, one `split()` word, and
+free of white space, whatever the tables. -/
+theorem word_facts [hT : T.Lawful] (w : List Char)
+    (h : (!w.isEmpty && allAscii w && w.all (fun c => !AsciiStr.isSpace c) && AsciiStr.lower w == w) = true) :
+    T.lower w = w ∧ T.split w = [w] ∧ ∀ c ∈ w, T.isSpace c = false := by
+  simp only [Bool.and_eq_true, Bool.not_eq_true', List.isEmpty_eq_false_iff, beq_iff_eq] at h
+  obtain ⟨⟨⟨h1, h2⟩, h3⟩, h4⟩ := h
+  obtain ⟨hns, hl⟩ := T.ascii_word h2 h3
+  exact ⟨hl h4, T.split_word h1 hns, hns⟩
 
-theorem split_joinSpace (es : List (List Char)) : split (joinSpace es) = es.flatMap split := by
+theorem split_append_space [hT : T.Lawful] (a b : List Char) : T.split (a ++ ' ' :: b) = T.split a ++ T.split b :=
+  T.splitAux_append_space a ' ' T.isSpace_blank b []
+
+theorem split_joinSpace [hT : T.Lawful] (es : List (List Char)) : T.split (joinSpace es) = es.flatMap T.split := by
   induction es with
   | nil => rfl
   | cons w rest ih =>
     cases rest with
     | nil => simp [joinSpace]
     | cons w' rest' =>
-      show split (w ++ ' ' :: joinSpace (w' :: rest')) = _
-      rw [split_append_space, ih]
+      show T.split (w ++ ' ' :: joinSpace (w' :: rest')) = _
+      rw [T.split_append_space, ih]
       simp
 
-theorem split_spaces_prefix (p s : List Char) (hp : ∀ c ∈ p, isSpace c = true) : split (p ++ s) = split s := by
+theorem split_spaces_prefix (p s : List Char) (hp : ∀ c ∈ p, T.isSpace c = true) : T.split (p ++ s) = T.split s := by
   induction p with
   | nil => rfl
   | cons c r ih =>
     have hc := hp c (by simp)
-    have hr : ∀ d ∈ r, isSpace d = true := fun d hd => hp d (by simp [hd])
+    have hr : ∀ d ∈ r, T.isSpace d = true := fun d hd => hp d (by simp [hd])
     unfold split at *
     simp only [List.cons_append, splitAux, hc, if_true, List.isEmpty_nil]
     exact ih hr
 
 /-- If `s.strip()` is the space-free non-empty word `n` then `s.split() == [n]`. -/
-theorem split_of_strip_eq {s n : List Char} (h : strip s = n) (hne : n ≠ []) (hn : ∀ c ∈ n, isSpace c = false) :
-    split s = [n] := by
+theorem split_of_strip_eq {s n : List Char} (h : T.strip s = n) (hne : n ≠ []) (hn : ∀ c ∈ n, T.isSpace c = false) :
+    T.split s = [n] := by
   unfold strip lstrip rstrip at h
-  -- s = pre ++ t, t = n ++ post
-  have hs : s = s.takeWhile isSpace ++ s.dropWhile isSpace := (List.takeWhile_append_dropWhile).symm
-  generalize hT : s.dropWhile isSpace = t at h hs
-  have ht : t = n ++ (t.reverse.takeWhile isSpace).reverse := by
-    have := (List.takeWhile_append_dropWhile (p := isSpace) (l := t.reverse))
+  have hs : s = s.takeWhile T.isSpace ++ s.dropWhile T.isSpace := (List.takeWhile_append_dropWhile).symm
+  generalize hT : s.dropWhile T.isSpace = t at h hs
+  have ht : t = n ++ (t.reverse.takeWhile T.isSpace).reverse := by
+    have := (List.takeWhile_append_dropWhile (p := T.isSpace) (l := t.reverse))
     have h2 := congrArg List.reverse this
     simp only [List.reverse_append, List.reverse_reverse] at h2
     rw [h] at h2
     exact h2.symm
-  rw [hs, split_spaces_prefix _ _ (fun c hc => List.all_eq_true.mp List.all_takeWhile c hc), ht]
-  have hp : ∀ c ∈ (t.reverse.takeWhile isSpace).reverse, isSpace c = true := by
+  rw [hs, T.split_spaces_prefix _ _ (fun c hc => List.all_eq_true.mp List.all_takeWhile c hc), ht]
+  have hp : ∀ c ∈ (t.reverse.takeWhile T.isSpace).reverse, T.isSpace c = true := by
     intro c hc
     exact List.all_eq_true.mp List.all_takeWhile c (List.mem_reverse.mp hc)
-  have := splitAux_word n hn _ hp []
+  have := T.splitAux_word n hn _ hp []
   unfold split
   rw [this]
   cases n with
@@ -138,8 +213,8 @@ theorem split_of_strip_eq {s n : List Char} (h : strip s = n) (hne : n ≠ []) (
   | cons a r => simp
 
 /-- Every word produced by `split` is non-empty and free of white space. -/
-theorem splitAux_words (s cur : List Char) (hcur : ∀ c ∈ cur, isSpace c = false) :
-    ∀ w ∈ splitAux s cur, w ≠ [] ∧ ∀ c ∈ w, isSpace c = false := by
+theorem splitAux_words (s cur : List Char) (hcur : ∀ c ∈ cur, T.isSpace c = false) :
+    ∀ w ∈ T.splitAux s cur, w ≠ [] ∧ ∀ c ∈ w, T.isSpace c = false := by
   induction s generalizing cur with
   | nil =>
     intro w hw
@@ -169,62 +244,75 @@ theorem splitAux_words (s cur : List Char) (hcur : ∀ c ∈ cur, isSpace c = fa
       · exact hcur d hd
       · simpa using hc
 
-theorem split_words (s : List Char) : ∀ w ∈ split s, w ≠ [] ∧ ∀ c ∈ w, isSpace c = false :=
-  splitAux_words s [] (by simp)
+theorem split_words (s : List Char) : ∀ w ∈ T.split s, w ≠ [] ∧ ∀ c ∈ w, T.isSpace c = false :=
+  T.splitAux_words s [] (by simp)
 
-end AsciiStr
+end StrTables
 
-open AsciiStr
+variable (T : StrTables)
 
 /-! ### `Color.parse` -/
 
 /-- Every colour `Color.parse` returns carries the normalised text as its name. -/
-theorem Color.parseNorm_name {v n c} (h : Color.parseNorm v n = .ok c) : c.name = n := by
-  unfold Color.parseNorm at h
+theorem Color.parseNormT_name {v n c} (h : Color.parseNormT T v n = .ok c) : c.name = n := by
+  unfold Color.parseNormT at h
   repeat' split at h
   all_goals first
     | (cases h; done)
     | (injection h with h; subst h; rfl)
 
-theorem Color.parse_name {v w c} (h : Color.parse v w = .ok c) : c.name = strip (lower w) :=
-  Color.parseNorm_name h
+theorem Color.parseT_name {v w c} (h : Color.parseT T v w = .ok c) : c.name = T.strip (T.lower w) :=
+  Color.parseNormT_name T h
 
 /-- `Color.parse` only looks at the lower-cased text. -/
-theorem Color.parse_lower (v : StyleVariant) (w : List Char) : Color.parse v (lower w) = Color.parse v w := by
-  unfold Color.parse
-  rw [lower_idem]
+theorem Color.parseT_lower [T.Lawful] (v : StyleVariant) (w : List Char) :
+    Color.parseT T v (T.lower w) = Color.parseT T v w := by
+  unfold Color.parseT
+  rw [T.lower_idem]
 
-/-- The words `Style.parse` gives a meaning of their own are not colours (on the translated
-`ANSI_COLOR_NAMES` of this run). -/
+/-- The words `Style.parse` gives a meaning of their own. -/
 def styleKeywords : List (List Char) :=
   [cl! "on", cl! "not", cl! "link", cl! "none", cl! "dim", cl! "d", cl! "bold", cl! "b", cl! "italic", cl! "i",
    cl! "underline", cl! "u", cl! "blink", cl! "blink2", cl! "reverse", cl! "r", cl! "conceal", cl! "c",
    cl! "strike", cl! "s", cl! "underline2", cl! "uu", cl! "frame", cl! "encircle", cl! "overline", cl! "o"]
 
+/-- `RE_COLOR` needs one of its three openings. -/
+theorem matchRe_none {s : List Char} (h1 : s.head? ≠ some '#') (h2 : dropPrefix? (cl! "color(") s = none)
+    (h3 : dropPrefix? (cl! "rgb(") s = none) : matchRe T s = none := by
+  unfold matchRe
+  split
+  · simp at h1
+  · simp [h2, h3]
+
+/-- The key words are lower-case ASCII words that are neither `default`, nor a name of the translated
+`ANSI_COLOR_NAMES` of this run, nor open like one of the three `RE_COLOR` forms. -/
 theorem keywords_not_colors_tbl :
-    styleKeywords.all (fun k => (ansiColorNumber (strip (lower k))).isNone && (matchReColor (strip (lower k))).isNone
-      && strip (lower k) != cl! "default") = true := by
+    styleKeywords.all (fun k => allAscii k && k.all (fun c => !AsciiStr.isSpace c) && AsciiStr.lower k == k &&
+      (ansiColorNumber k).isNone && k != cl! "default" && k.head? != some '#' &&
+      (dropPrefix? (cl! "color(") k).isNone && (dropPrefix? (cl! "rgb(") k).isNone) = true := by
   decide +kernel
 
-theorem keyword_not_color (v : StyleVariant) {k : List Char} (hk : k ∈ styleKeywords) :
-    Color.parse v k = .error .colorParse := by
+theorem keyword_not_color [T.Lawful] (v : StyleVariant) {k : List Char} (hk : k ∈ styleKeywords) :
+    Color.parseT T v k = .error .colorParse := by
   have := List.all_eq_true.mp keywords_not_colors_tbl k hk
-  simp only [Bool.and_eq_true, bne_iff_ne, ne_eq, Option.isNone_iff_eq_none] at this
-  obtain ⟨⟨h1, h2⟩, h3⟩ := this
-  unfold Color.parse Color.parseNorm
-  simp [h1, h2, h3]
+  simp only [Bool.and_eq_true, bne_iff_ne, ne_eq, Option.isNone_iff_eq_none, beq_iff_eq] at this
+  obtain ⟨⟨⟨⟨⟨⟨⟨h1, h2⟩, h3⟩, h4⟩, h5⟩, h6⟩, h7⟩, h8⟩ := this
+  obtain ⟨hns, hl⟩ := T.ascii_word h1 h2
+  unfold Color.parseT Color.parseNormT
+  rw [hl h3, T.strip_noSpace hns]
+  simp [h4, h5, matchRe_none T h6 h7 h8]
 
-theorem Color.parseNorm_ok_indep {v v' : StyleVariant} {n : List Char} {c : Color}
-    (h : Color.parseNorm v n = .ok c) : Color.parseNorm v' n = .ok c := by
-  unfold Color.parseNorm at h ⊢
+theorem Color.parseNormT_ok_indep {v v' : StyleVariant} {n : List Char} {c : Color}
+    (h : Color.parseNormT T v n = .ok c) : Color.parseNormT T v' n = .ok c := by
+  unfold Color.parseNormT at h ⊢
   repeat' split at h
   all_goals first
     | (cases h; done)
     | (simp_all; done)
 
 /-- A successful `Color.parse` does not depend on the code variant. -/
-theorem Color.parse_ok_indep {v v' : StyleVariant} {w : List Char} {c : Color}
-    (h : Color.parse v w = .ok c) : Color.parse v' w = .ok c :=
-  Color.parseNorm_ok_indep h
+theorem Color.parseT_ok_indep {v v' : StyleVariant} {w : List Char} {c : Color}
+    (h : Color.parseT T v w = .ok c) : Color.parseT T v' w = .ok c :=
+  Color.parseNormT_ok_indep T h
 
 end RichModel
